@@ -129,6 +129,7 @@ def plan(tier):
     if not q:
         for tp in TPS:
             cfgs.append(("tp=%s,part=cover,menu=0x%x" % (tp, DEFAULT_MENU), 1))
+        cfgs.append(("tp=tls,part=cover2,menu=0x%x" % DEFAULT_MENU, 2))
         for tp in TPS:
             for part in ("x2", "x1"):
                 cfgs.append(("tp=%s,part=%s" % (tp, part), 0))
@@ -199,6 +200,7 @@ def run(chk, tier, jobs, deadline):
                 distinct_outcomes_summed=tot["outcomes"], choice_points_total=tot["points"], configurations=len(per_cfg),
                 credential_kinds=nkinds, per_configuration=per_cfg, samples=samples,
                 bounds="every cell under the default environment (bound 0)" +
-                       ("" if tier == "quick" else "; covering subset with every single environment/schedule deviation (bound 1)"),
+                       ("" if tier == "quick" else "; covering subset (4 placements x 10 policies x 20 kinds x 3 transports) with every single "
+                                                   "environment/schedule deviation (bound 1); 12 cells on tls with every pair (bound 2)"),
                 exhaustive=completed_all and not chk.deadline_hit)
     chk.add_cov(**{n: counters[i] for i, n in COUNTERS.items()})
